@@ -3,6 +3,7 @@ import EaselModel.Ssi.History
 import EaselModel.Ssi.Auto
 import EaselModel.Ssi.Robust
 import EaselModel.Ssi.Trunc
+import EaselModel.Ssi.Chains
 /-! # C06 — property theorems (statements + glue only; lemmas live in Ssi/*.lean)
 
 `ns : NewSsi` is the model of the `ESL_NEWSSI` under construction, `ns.WF` says it is what the `esl_newssi_Add*`
@@ -338,6 +339,78 @@ theorem truncated_index_same_answers (ns : NewSsi) (h : ns.WF) (cur : Option Byt
   obtain ⟨_, rfl⟩ := written_file ns h cur bytes hw
   rw [open_image h]
   exact ⟨fun i r hr => (trunc_geometry h n s' ho).1.findNumber i r hr, fun fh => trunc_fileInfo h n s' ho fh⟩
+
+/-! ## alias → alias chains and cycles (hand-made files, outside `AddAlias`'s precondition): what the code does -/
+
+/-- one call of `esl_ssi_FindName` either answers without recursion (`Ssi.direct`: primary hit, `eslENOTFOUND`,
+    `eslEFORMAT`) or calls itself on the string stored with the alias record it found (`Ssi.next`) -/
+theorem findName_one_level (s : Ssi) (fuel : Nat) (key : Bytes) :
+    s.findNameAux (fuel + 1) key = match s.next key with
+      | some k' => s.findNameAux fuel k'
+      | none => s.direct key :=
+  findNameAux_step s fuel key
+
+/-- **recursion depth on a chain**: if the path `key, next key, next (next key), …` ends at its `d`-th link `last`, the
+    C recursion is exactly `d` levels deep and `FindName key` answers what the non-recursive lookup of `last` answers — for
+    any index bytes, sorted or not. (`d < 100000`: the model's fuel; a chain of `d` links needs `d` distinct alias records.) -/
+theorem findName_chain_depth (s : Ssi) (d : Nat) (key last : Bytes) (hl : s.link key d = some last)
+    (he : s.next last = none) (hd : d < FUEL) :
+    s.findName key = s.direct last ∧ (∀ fuel, fuel ≤ d → s.findNameAux fuel key = .error .nohalt) :=
+  ⟨(findName_depth s d key last hl he).1 FUEL hd, (findName_depth s d key last hl he).2⟩
+
+/-- **a cycle never returns**: if after `n ≥ 1` links the path is back at `key` (an alias naming itself, two aliases
+    naming each other, …), `esl_ssi_FindName key` recurses without end — no recursion depth suffices (stack overflow in
+    C; the model's `nohalt` for EVERY fuel). Such files are the only ones the damaged-index stream does not run. -/
+theorem findName_cycle_never_returns (s : Ssi) (key : Bytes) (n : Nat) (hpos : 0 < n) (hc : s.link key n = some key)
+    (fuel : Nat) : s.findNameAux fuel key = .error .nohalt :=
+  findName_diverges s key (cycle_never_ends s key n hpos hc) fuel
+
+/-- the smallest cycle: no primary keys, one alias record `a → a` (4 bytes `a\0a\0`) -/
+def exLoop : Ssi :=
+  { data := #[97, 0, 97, 0], flags := 0, offsz := 8, nfiles := 1, nprimary := 0, nsecondary := 1, flen := 1, plen := 2, slen := 2,
+    frecsize := 17, precsize := 28, srecsize := 4, foffset := 0, poffset := 0, soffset := 0, files := [] }
+
+theorem exLoop_next : exLoop.next [97] = some [97] := by
+  have hr : rdNameAt #[97, 0, 97, 0] 2 0 4 0 = .ok [97] := by rfl
+  have hl : bsearchLoop (rdNameAt #[97, 0, 97, 0] 2 0 4) [97] 0 0 = .ok 0 := by
+    rw [bsearchLoop]
+    simp only [Nat.add_zero, Nat.zero_div, hr]
+    rfl
+  have hb : bsearch exLoop.data [97] exLoop.slen exLoop.soffset exLoop.srecsize exLoop.nsecondary = .ok 2 := by
+    simp only [bsearch, exLoop, Nat.sub_self, hl]
+    rfl
+  have hp : bsearch exLoop.data [97] exLoop.plen exLoop.poffset exLoop.precsize exLoop.nprimary = .error .enotfound := by
+    unfold bsearch; rfl
+  unfold Ssi.next
+  rw [hp]
+  simp only []
+  rw [hb]
+  rfl
+
+/-- non-vacuity of `findName_cycle_never_returns` -/
+example (fuel : Nat) : exLoop.findNameAux fuel [97] = .error .nohalt :=
+  findName_cycle_never_returns exLoop [97] 1 (by decide) (by simp [Ssi.link, exLoop_next]) fuel
+
+/-- non-vacuity of `findName_chain_depth` (`d = 0`: a string that is nowhere in the index; depths 1–3 are run against
+    the real code by the damaged-index stream) -/
+example : exLoop.findName [98] = exLoop.direct [98] ∧ exLoop.link [98] 0 = some [98] := by
+  have hr : rdNameAt #[97, 0, 97, 0] 2 0 4 0 = .ok [97] := by rfl
+  have hl : bsearchLoop (rdNameAt #[97, 0, 97, 0] 2 0 4) [98] 0 0 = .error .enotfound := by
+    rw [bsearchLoop]
+    simp only [Nat.add_zero, Nat.zero_div, hr]
+    rfl
+  have hn : exLoop.next [98] = none := by
+    have hb : bsearch exLoop.data [98] exLoop.slen exLoop.soffset exLoop.srecsize exLoop.nsecondary = .error .enotfound := by
+      simp only [bsearch, exLoop, Nat.sub_self, hl]
+      rfl
+    have hp : bsearch exLoop.data [98] exLoop.plen exLoop.poffset exLoop.precsize exLoop.nprimary = .error .enotfound := by
+      unfold bsearch; rfl
+    unfold Ssi.next
+    rw [hp]
+    simp only []
+    rw [hb]
+    rfl
+  exact ⟨(findName_chain_depth exLoop 0 [98] [98] rfl hn (by decide)).1, rfl⟩
 
 /-! ## `esl_newssi_AddFile` and duplicate names -/
 
